@@ -602,6 +602,14 @@ def r13_lex_errors_reported(c, facts, rule='C13.R13'):
             a0 = t['args'][0].get('ty', '') if t['args'] else ''
             if 'closure' in a0:
                 pushes.add(b)
+    if not nx:
+        # `lexer.for_each(|(result, range)| ..)`: the closure is one iteration; returning from it is going on to the next token
+        import c11 as _c11fe
+        cl = _c11fe._lexer_for_each(facts, tk)
+        if cl is not None:
+            tk = facts.closure_flat(cl)[0]
+            pushes = {b for b, t in P.call_blocks(tk, 'Vec::push') if 'ParserError' in (t['args'][0].get('ty', '') if t['args'] else '')}
+            nx = [(None, None)]
     if not nx or not pushes:
         c.bad(R, 'tokenize:shape', 'tokenize: cannot find the loop over the lexer or the error list')
         return
